@@ -294,7 +294,7 @@ def run(ctx):
     ctx.note("core-extraction trace hook (proposed_hooks/C06_core_trace.diff) %s" % ("present: exact replay of the builder on the extracted model" if hook else
              "absent: end-to-end judgement only"))
     cc.core_exe()
-    n = 130 if ctx.quick else 3000
+    n = 110 if ctx.quick else 3000
     corpus = sorted(glob.glob(os.path.join(vlib.VERIF, "corpus", "C06", "*.smt2")))
     jobs = [(ctx.seed, p, hook) for p in corpus] + [(ctx.seed, i, hook) for i in range(n)]
     with cf.ThreadPoolExecutor(max_workers=14) as ex:
